@@ -33,9 +33,9 @@ var checks = map[string]checkDef{
 	"C06": {pkg: "verif/mc/checks/c06", shapes: []string{"mini", "flat3", "person", "one", "oneopt", "onerep", "rbool"}},
 	"C07": {pkg: "verif/mc/checks/c07"},
 	"C08": {pkg: "verif/mc/checks/c08", shapes: []string{"mini", "person", "flat24", "document", "reqdeep", "flat3", "tailstr"}},
-	"C09": {pkg: "verif/mc/checks/c09", shapes: []string{"mini", "person"}},
+	"C09": {pkg: "verif/mc/checks/c09", shapes: []string{"mini", "person", "tailstr"}},
 	"C10": {pkg: "verif/mc/checks/c10", shapes: []string{"mini", "person", "flat24", "document", "flat3", "tailstr"}},
-	"C11": {pkg: "verif/mc/checks/c11", shapes: []string{"mini", "person", "flat24", "flat3", "tailstr"}},
+	"C11": {pkg: "verif/mc/checks/c11", shapes: []string{"mini", "person", "flat24", "flat3", "tailstr", "idonly"}},
 	"C12": {pkg: "verif/mc/checks/c12", shapes: []string{"flat24", "person", "document", "nest16"}},
 	"C13": {pkg: "verif/mc/checks/c13", shapes: []string{"mini", "flat3", "flat24"}, modfile: "go.sched.mod"},
 	"C14": {pkg: "verif/mc/checks/c14"},
